@@ -41,6 +41,7 @@
 #include "compiler.h"
 #include "groups.h"
 #include "jet_random.h"
+#include "jet_string.h"
 #include "log.h"
 #include "response.h"
 #include "json/cJSON.h"
@@ -463,22 +464,22 @@ cJSON *change_password(const struct peer *p, const cJSON *request, const char *u
 			goto out;
 		}
 
-		cJSON *new_password = cJSON_CreateString(encrypted);
-		if (new_password == NULL) {
+		char *new_hash = duplicate_string(encrypted);
+		if (new_hash == NULL) {
 			response = create_error_response_from_request(p, request, INTERNAL_ERROR, "reason", "not enough memory to store password");
 			goto out;
 		}
 
-		cJSON *old_password = cJSON_DetachItemFromObject(user, "password");
-		cJSON_AddItemToObject(user, "password", new_password);
+		char *old_hash = password->valuestring;
+		password->valuestring = new_hash;
 		if (write_user_data() < 0) {
 			/* The change did not reach the file, so it must not be in force in memory either. */
-			cJSON_DeleteItemFromObject(user, "password");
-			cJSON_AddItemToObject(user, "password", old_password);
+			password->valuestring = old_hash;
+			cjet_free(new_hash);
 			response = create_error_response_from_request(p, request, INTERNAL_ERROR, "reason", "Could not write password file");
 			goto out;
 		}
-		cJSON_Delete(old_password);
+		cjet_free(old_hash);
 	} else {
 		response = create_error_response_from_request(p, request, INVALID_PARAMS, "reason", "user not allowed to change password");
 		goto out;
